@@ -34,6 +34,27 @@ func (cs clauses) call(vm *VM, args []Term, k Cont, env *Env) *Promise {
 	return p
 }
 
+// indexOf returns the position of the stored clause c in cs, or -1 if it's not there (any more).
+// hint is the position where c is expected if nobody else has changed cs.
+func (cs clauses) indexOf(c clause, hint int) int {
+	if len(c.bytecode) == 0 {
+		// c wasn't made by compile. It has nothing to be identified by but its position.
+		if hint < 0 || hint >= len(cs) {
+			return -1
+		}
+		return hint
+	}
+	if hint >= 0 && hint < len(cs) && cs[hint].is(c) {
+		return hint
+	}
+	for i := range cs {
+		if cs[i].is(c) {
+			return i
+		}
+	}
+	return -1
+}
+
 func compile(t Term, env *Env) (clauses, error) {
 	t = env.Resolve(t)
 	if t, ok := t.(Compound); ok && t.Functor() == atomIf && t.Arity() == 2 {
@@ -61,6 +82,13 @@ type clause struct {
 	raw      Term
 	vars     []Variable
 	bytecode bytecode
+}
+
+// is reports whether c and o are copies of the same stored clause. Clauses are copied by value when a call
+// takes its snapshot of a procedure, but the bytecode of a clause is allocated once by compileClause and
+// never shared with another clause nor reallocated.
+func (c clause) is(o clause) bool {
+	return len(c.bytecode) > 0 && len(o.bytecode) > 0 && &c.bytecode[0] == &o.bytecode[0]
 }
 
 func compileClause(head Term, body Term, env *Env) (clause, error) {
